@@ -1708,6 +1708,20 @@ func (m *repoManager) hideBranch(uuid dvid.UUID, branch string) error {
 	}
 	m.repoMutex.Lock()
 	r.Lock()
+	// Versions of other branches that descend from the branch would be left with
+	// parents that no longer exist.
+	for _, node := range r.dag.nodes {
+		if node.branch == branch {
+			continue
+		}
+		for _, pv := range node.parents {
+			if parent, found := r.dag.nodes[pv]; found && parent.branch == branch {
+				r.Unlock()
+				m.repoMutex.Unlock()
+				return fmt.Errorf("cannot hide branch %q: version %s of another branch descends from it", branch, node.uuid)
+			}
+		}
+	}
 	del_set := make(map[dvid.VersionID]struct{})
 	for v, node := range r.dag.nodes {
 		if node.branch == branch {
